@@ -27,6 +27,13 @@ CHECKS["C09"] = dict(
     note="Trusted: Coq kernel; hand model KindModel.v (kinds only - no scopes, no C++ text; lazily resolved lambda arguments mirrored with fuel, theorems hold for every fuel); AST/registry serialiser astser.py; extraction + OCaml driver; func_adl/qastle front end and metadata processing run before the modelled part (their refusals are observed, not modelled here); correspondence and graft stream are differential tests bounded by their generators. Known findings: keyword arguments dropped, raw object columns accepted.",
     technique="Coq proof (induction over strict contexts of a kind-level translator model) + model/implementation correspondence on valid and grafted queries",
 )
+CHECKS["C13"] = dict(
+    category="proof",
+    text="For an arbitrary floating type (no law assumed) Coq proves, over a hand model of visit_BinOp/visit_UnaryOp/visit_Compare/visit_IfExp/aggregate typing/set_var casts and operator tables regenerated from /repo, that the emitted C++ expression - evaluated with explicit integral promotion, usual arithmetic conversions, 32-bit ints and the std::pow overload rule - yields the value Python computes on the declared types and that Python's result type is the declared one: per operator (C13_binop_partial, C13_binop_inline, C13_pow, C13_unary_partial, C13_compare, C13_conditional), for whole nested expressions by induction (C13_expression), accumulator width (C13_acc_width, C13_aggregate_fold) and C13_int_stays_int. Partial exactly where the code is wrong or refuses, each with a refutation theorem and a known finding: float %, boolean operands, unary minus on a boolean, conditional declared double; int/int true division is refuted for the old emission and fixed. Tie: exhaustive operator x operand-kind table and random nested expressions through all three executors compared with the extracted model; independent oracle: the emitted expressions compiled with g++ and compared with the Python interpreter's own arithmetic.",
+    design_ref="5.13",
+    note="Trusted: Coq kernel; hand models in Arith.v of the translator (tied by correspondence), of C++ expression evaluation (validated against g++ in every run) and of Python's operators on declared types (validated against the interpreter); the printer's full parenthesisation; optables.py; floating-point operations are abstract (both sides use the same ones; float arithmetic = binary64 result rounded once). Side conditions: operands carry their declared types, ints fit 32 bits, divisor non-zero, % on non-negative ints.",
+    technique="Coq proof over an abstract floating type (case analysis per operator and operand types, induction over expressions and folds) + regenerated tables + model/implementation correspondence + g++/Python differential oracle",
+)
 NOT_YET = {}
 
 def main():
